@@ -28,6 +28,10 @@ CHECKS = {
    technique="symbolic execution of the MIR of ParserState + pest::state() with ERROR_DETAIL off and on over the same symbolic input inside one path; z3 decides the joint path conditions",
    text="For each program tree (400/3000) and every valid UTF-8 input of 0..N bytes (N=3/4) both configurations are executed from the MIR; success, tokens, stack, error position and sorted positives/negatives must agree, the flag-on run must not panic (MIR overflow/bounds asserts included) and ParseAttempts::max_position must be a char boundary inside the input. Every run is replayed natively, where the error is also rendered.",
    note="Trusted as for C03. Rendering of the help message is only exercised concretely by the native replay of each path (a panic there is reported), not symbolically."),
+ "C01": dict(level="translation_validation", design="§5 C01", engine="M",
+   technique="symbolic execution of the MIR of pest_vm (Vm::parse_rule/parse_expr/skip) and of the pest runtime on fully symbolic UTF-8 input for each grammar of an enumerated family, compared path by path (z3 deciding every branch) with the reference PEG semantics evaluated on the unoptimized rules",
+   text="For each grammar text of the family (systematic operator/modifier/WHITESPACE/COMMENT/stack shapes plus seeded random expressions; 90 quick / 1200 thorough, default features and grammar-extras) the real front-end (parse, validate, optimize) runs natively; the optimized rules are loaded into the executor's heap as the Vm value and Vm::parse_rule is executed from MIR for start rules a and b on every valid UTF-8 input of 0..N bytes (N=4/5). On every path acceptance, consumed length, token tree with rule names and tags, and final stack are compared with the reference semantics (lib/pegsym.py) of the *unoptimized* rules; every path is replayed against the compiled pest_vm.",
+   note="Trusted: MIR dump = compiled code; executor and summaries (validated per path natively on acceptance, tokens and tags); the reference semantics; z3. Grammars are enumerated, inputs bounded by N, Unicode property built-ins excluded (C16). Three known findings (lister rewrite, unroll trailing skip, tag on pairless expression) are matched by attributing the deviation to a pipeline stage on the witness input; anything not so attributable is a violation."),
 }
 
 NOT_APPLICABLE = {
